@@ -27,7 +27,7 @@
 
 #define ISCOMMA(c) ((c == ',') ? 1 : 0)
 
-static char *symptr[VSFIELDMAX];                   /* array of ptrs to tokens  ? */
+static char *symptr[VSFIELDMAX + 1];               /* array of ptrs to tokens, NULL-terminated */
 static char  sym[VSFIELDMAX][FIELDNAMELENMAX + 1]; /* array of tokens ? */
 static int   nsym;                                 /* token index ? */
 
@@ -93,6 +93,10 @@ scanattrs(const char *attrs, int32 *attrc, char ***attrv)
             if (len <= 0)
                 return FAIL;
 
+            /* no more than VSFIELDMAX tokens fit in the token tables */
+            if (nsym >= VSFIELDMAX)
+                HRETURN_ERROR(DFE_SYMSIZE, FAIL);
+
             /* save that token */
             ss = symptr[nsym] = sym[nsym];
             nsym++;
@@ -123,6 +127,8 @@ scanattrs(const char *attrs, int32 *attrc, char ***attrv)
     len = (int)(s - s0);
     if (len <= 0)
         return FAIL;
+    if (nsym >= VSFIELDMAX)
+        HRETURN_ERROR(DFE_SYMSIZE, FAIL);
     ss = symptr[nsym] = sym[nsym];
     nsym++;
 
